@@ -56,39 +56,29 @@ def parseFArr? (s : String) : Option (Arr (Option Int)) :=
 
 def showNatArr (a : Arr Nat) : String := showNatList a.shape ++ ":" ++ showNatList a.elems
 
-/-- the axis forms are modelled for rank-1 arrays only (`along1D`); other ranks wait for `ArrModel.Axis` -/
-def axisOk {α} (a : Arr α) (axis : Option Int) : Bool := axis.isNone || a.ndim == 1
-
 def handle (op : String) (args : List String) : Option String :=
   match op, args with
   | "sort", [a, ax, k] => do
     let a ← parseArr? a; let ax ← parseOpt? parseInt? ax; let k ← parseKindArg? k
-    if !axisOk a ax then none
-    some (showRes showArr (Sort.sort along1D Cmp.int a ax k))
+    some (showRes showArr (Sort.sort Cmp.int 0 a ax k))
   | "argsort", [a, ax, k] => do
     let a ← parseArr? a; let ax ← parseOpt? parseInt? ax; let k ← parseKindArg? k
-    if !axisOk a ax then none
-    some (showRes showNatArr (Sort.argsort along1D Cmp.int a ax k))
+    some (showRes showNatArr (Sort.argsort Cmp.int 0 a ax k))
   | "unique", [a, ax] => do
     let a ← parseArr? a; let ax ← parseOpt? parseInt? ax
-    if !axisOk a ax then none
-    some (showRes showArr (Sort.unique along1D Cmp.int a ax))
+    some (showRes showArr (Sort.unique Cmp.int 0 a ax))
   | "argmax", [a, ax, kd] => do
     let a ← parseArr? a; let ax ← parseOpt? parseInt? ax; let kd ← parseKeep? kd
-    if !axisOk a ax then none
-    some (showRes showNatArr (Sort.argExtreme along1D Cmp.int true a ax kd))
+    some (showRes showNatArr (Sort.argExtreme Cmp.int 0 true a ax kd))
   | "argmin", [a, ax, kd] => do
     let a ← parseArr? a; let ax ← parseOpt? parseInt? ax; let kd ← parseKeep? kd
-    if !axisOk a ax then none
-    some (showRes showNatArr (Sort.argExtreme along1D Cmp.int false a ax kd))
+    some (showRes showNatArr (Sort.argExtreme Cmp.int 0 false a ax kd))
   | "argmax_f", [a, ax, kd] => do
     let a ← parseFArr? a; let ax ← parseOpt? parseInt? ax; let kd ← parseKeep? kd
-    if !axisOk a ax then none
-    some (showRes showNatArr (Sort.argExtreme along1D Cmp.f64 true a ax kd))
+    some (showRes showNatArr (Sort.argExtreme Cmp.f64 (some 0) true a ax kd))
   | "argmin_f", [a, ax, kd] => do
     let a ← parseFArr? a; let ax ← parseOpt? parseInt? ax; let kd ← parseKeep? kd
-    if !axisOk a ax then none
-    some (showRes showNatArr (Sort.argExtreme along1D Cmp.f64 false a ax kd))
+    some (showRes showNatArr (Sort.argExtreme Cmp.f64 (some 0) false a ax kd))
   | _, _ => none
 
 end Driver.C10
